@@ -440,6 +440,17 @@ def oracle_geonet(case, rec):
                           max(1.0, float(np.abs(lon).max()),
                               float(np.abs(lat).max()))))
 
+    # documented conversion from 0..360 to -180..180 (180 itself stays)
+    lon360 = np.mod(lon_in, 360.0)
+    ok, cv = rec.call("convert_lon_coordinates", g.convert_lon_coordinates,
+                      lon360.copy())
+    if ok:
+        rec.close(np.asarray(cv, dtype=float),
+                  np.where(lon360 > 180.0, lon360 - 360.0, lon360),
+                  "convert_lon_coordinates_def", rtol=0, atol=0)
+        if np.any(lon360 == 180.0):
+            rec.label("lon_exactly_180")
+
     U = ((A + A.T) > 0).astype(np.int64)
     Ap = U + np.eye(n, dtype=np.int64) if not directed else None
 
